@@ -465,3 +465,70 @@ Example C01_example_run2 :
   = [RBase RNone; RBase RNone; RPanic2; RValOf (v_ 4 8);
      RItems [(k_ 1 5, v_ 2 7)]; RItems []; RValOf (v_ 10 2); RBase (RVal (v_ 10 2))].
 Proof. vm_compute. reflexivity. Qed.
+
+(* ========================================================================== *)
+(* HISTORY LEVEL, ALL 56 OPERATIONS OF THE INTERPRETER (Proofs/ExecView.v)
+
+   The theorems above speak about the Map methods one call at a time and about
+   histories of the dictionary operations.  The theorem below speaks about the
+   very function the correspondence check runs against the real crate
+   ([Exec.step], one constructor per harness operation: inserts, lookups,
+   removals, retain, clear, drains and consuming iterations however far they
+   are taken, iterator sessions writing through iter_mut / values_mut, the 12
+   entry chains, get_disjoint_mut, clone / clone_from, collect, serde round
+   trips, Default, with_capacity, and the Set operations), for EVERY history:
+
+     view_x x     the contents of the four registers as sequences of
+                  (key class, value payload) -- resp. classes for the two sets --
+                  in slot order, with the capacities;
+     vstep o vw   THE SPECIFICATION: a pure function on such sequences with no
+                  reference to the model (lists only: [pos] first position of a
+                  class, [set_at], [swap_del] = move the last element into the
+                  hole, append; see the 60 lines above [vstep] in
+                  Proofs/ExecView.v);
+     honest sc    the script makes == lawful and lets nothing panic
+                  (FmtSerde.honest);
+     safe_op o    o is not insert_unchecked (whose contract is a precondition,
+                  see C18); unchecked get_disjoint needs its keys pairwise
+                  different (its contract).
+
+   Under an honest script the stored contents after any history are exactly
+   what [vstep] computes: no operation loses, duplicates, reorders (beyond the
+   swap-remove the spec spells out) or corrupts an entry, and a call that
+   panics (overflow, missing index, duplicate disjoint keys) leaves the
+   register as the spec says.                                                 *)
+(* ========================================================================== *)
+Require Import Proofs.ExecSafe Proofs.ExecUniq Proofs.ExecView Proofs.FmtSerde.
+
+Theorem C01_history_step_view :
+  forall debug sc o x,
+    honest sc -> WFx x -> UniqX x -> contract2 debug o x ->
+    view_x (snd (step debug sc o x)) = vstep o (view_x x).
+Proof. exact step_view. Qed.
+Print Assumptions C01_history_step_view.
+
+Theorem C01_history_run_view :
+  forall debug sc ops n0 n1 n2 n3,
+    honest sc -> Forall safe_op ops ->
+    Forall (fun o => match o with ODisjoint _ true qs _ => NoDup qs | _ => True end) ops ->
+    view_x (run_final debug sc ops (init_world n0 n1 n2 n3)) =
+    fold_left (fun vw o => vstep o vw) ops
+      {| v0 := []; v1 := []; u2 := []; u3 := [];
+         c0 := nat_of n0; c1 := nat_of n1; c2 := nat_of n2; c3 := nat_of n3 |}.
+Proof. exact run_view_init. Qed.
+Print Assumptions C01_history_run_view.
+
+(* the specification on a concrete history (capacity 3 map in register 0, capacity 3
+   in register 1): three inserts, a fourth key is rejected (panic, unchanged), class 5
+   removed (the last entry moves into its slot), payload of class 7 rewritten through
+   get_mut, entry(class 6).and_modify(+100).or_insert, register 1 := clone, retain on
+   register 0 removing class 6 *)
+Example C01_example_vstep :
+  let ops := [OInsert 0 (mk 1 5) (mv 2 50); OInsert 0 (mk 3 6) (mv 4 60); OInsert 0 (mk 5 7) (mv 6 70);
+              OInsert 0 (mk 7 8) (mv 8 80); ORemove 0 (QCls 5); OGetMut 0 (QCls 7) 71;
+              OEntry 0 (mk 9 6) 4 (mv 10 0); OClone 0 1; ORetain 0 1 [(6, 0)]]%N in
+  let vw := fold_left (fun vw o => vstep o vw) ops
+              {| v0 := []; v1 := []; u2 := []; u3 := []; c0 := 3; c1 := 3; c2 := 0; c3 := 0 |} in
+  v0 vw = [(7, 71)]%N /\ v1 vw = [(7, 71); (6, 160)]%N /\
+  view_x (run_final false {| sc_adv := false; sc_seed := 0; sc_fk := 0; sc_fa := 0 |} ops (init_world 3 3 0 0)) = vw.
+Proof. vm_compute. repeat split; reflexivity. Qed.
